@@ -5,6 +5,7 @@ import (
 	"go/constant"
 	"go/token"
 	"go/types"
+	"sort"
 
 	"golang.org/x/tools/go/ssa"
 )
@@ -140,4 +141,154 @@ func returnsByte(fn *ssa.Function) bool {
 		}
 	}
 	return false
+}
+
+// c07SubNil: a subscription request has no data of its own: the fields of the operation are resolved one
+// level deep only (the resolver's *Subscription objects sit raw in the scratch map) and the caller gets a
+// nil result. The rule: a response map that was handed to the field resolver with a depth other than
+// MaxResolveDepth is not the result of any return reachable from that call. Returned on the failure path,
+// the envelope would carry a non-null data entry for a rejected request, with *Subscription values that
+// the JSON writer can only print through its %v fallback.
+func c07SubNil(c *Ctx, r *Report, a *Anchors) {
+	r.rule("C07.SUBNIL", "ResolveExecutable: a map passed to the field resolver with a depth other than MaxResolveDepth (subscription mode: raw values inside) is not returned by any return reachable from that call")
+	fn := a.entry
+	if fn == nil || a.field == nil {
+		r.undecided("C07.SUBNIL", "anchors: entry point / field resolver", token.NoPos, "not found")
+		return
+	}
+	isMaxDepth := func(v ssa.Value) bool {
+		u, ok := v.(*ssa.UnOp)
+		if !ok {
+			return false
+		}
+		g, ok := u.X.(*ssa.Global)
+		return ok && g.Name() == "MaxResolveDepth"
+	}
+	n := 0
+	for _, ci := range callsIn(fn) {
+		if ci.Common().StaticCallee() != a.field {
+			continue
+		}
+		args := ci.Common().Args
+		var depth, resMap ssa.Value
+		for _, av := range args {
+			if bt, ok := av.Type().Underlying().(*types.Basic); ok && bt.Kind() == types.Int {
+				depth = av
+			}
+			if isStrIfaceMap(av.Type()) {
+				resMap = av // the last map argument is the result map (vars comes first)
+			}
+		}
+		if depth == nil || resMap == nil {
+			continue
+		}
+		n++
+		shallow := !isMaxDepth(depth)
+		bad := token.NoPos
+		if shallow {
+			for _, rt := range returnsOf(fn) {
+				if !instrReaches(ci, rt) || len(rt.Results) == 0 {
+					continue
+				}
+				leaves, _ := phiLeaves(rt.Results[0])
+				for _, lf := range leaves {
+					if sameVal(stripIface(lf.val), resMap) || lf.val == resMap {
+						bad = rt.Pos()
+					}
+				}
+			}
+		}
+		r.check("C07.SUBNIL", fmt.Sprintf("%s: field resolver call #%d (%s depth) does not leak a shallow result", fnName(fn), n, map[bool]string{true: "shallow", false: "full"}[shallow]), firstPos(bad, ci.Pos()), bad == token.NoPos,
+			"the scratch map of a subscription request can be returned: a rejected subscription answers with a non-null data entry holding *Subscription objects, which do not serialise to JSON that decodes back")
+	}
+	r.floor("C07.SUBNIL", "field resolver calls in the entry point", n, 1)
+}
+
+// c07FreshErr: the location of an error is the position of the offending token in the SUBMITTED document.
+// An error value kept in schema state (a field of a schema node) was built for the document of whichever
+// request met the failure first; reported again later it carries that document's line and column (and the
+// path segments every report prepends to it in place). The rule: no error that is appended to a response
+// error list at request time is loaded from a field of a schema type, directly or through the result of a
+// package function.
+func c07FreshErr(c *Ctx, r *Report, a *Anchors) {
+	r.rule("C07.FRESHERR", "no error appended to a response error list by a request-time function is loaded from a field of a schema node (directly or as the result of a package function)")
+	var fromSchema func(v ssa.Value, depth int, seen map[ssa.Value]bool) string
+	fromSchema = func(v ssa.Value, depth int, seen map[ssa.Value]bool) string {
+		if v == nil || seen[v] || depth > 3 {
+			return ""
+		}
+		seen[v] = true
+		switch t := v.(type) {
+		case *ssa.Phi:
+			for _, e := range t.Edges {
+				if w := fromSchema(e, depth, seen); w != "" {
+					return w
+				}
+			}
+		case *ssa.UnOp:
+			if _, o, f, ok := loadOfField(t); ok && schemaTypes[o] && isErrorType(t.Type()) {
+				return o + "." + f
+			}
+			if al, ok := t.X.(*ssa.Alloc); ok {
+				for _, st := range cellStores(al) {
+					if w := fromSchema(st.Val, depth, seen); w != "" {
+						return w
+					}
+				}
+			}
+		case *ssa.Extract:
+			return fromSchema(t.Tuple, depth, seen)
+		case *ssa.Call:
+			if cal := t.Call.StaticCallee(); cal != nil && c.inPkg(cal) && len(cal.Blocks) > 0 {
+				for _, rt := range returnsOf(cal) {
+					for _, res := range rt.Results {
+						if isErrorType(res.Type()) {
+							if w := fromSchema(res, depth+1, seen); w != "" {
+								return w
+							}
+						}
+					}
+				}
+			}
+		}
+		return ""
+	}
+	var fns []*ssa.Function
+	for f := range a.reach {
+		if c.inPkg(f) {
+			fns = append(fns, f)
+		}
+	}
+	sort.Slice(fns, func(i, j int) bool { return fnName(fns[i]) < fnName(fns[j]) })
+	n := 0
+	for _, fn := range fns {
+		k := 0
+		for _, ci := range callsIn(fn) {
+			if !isBuiltinCall(ci, "append") {
+				continue
+			}
+			call, ok := ci.(*ssa.Call)
+			if !ok || len(call.Call.Args) != 2 || !isErrSlice(call.Type()) {
+				continue
+			}
+			elems, ok := sliceLitElems(call.Call.Args[1])
+			if !ok {
+				continue
+			}
+			n++
+			k++
+			src := ""
+			for _, e := range elems {
+				if w := fromSchema(e, 0, map[ssa.Value]bool{}); w != "" {
+					src = w
+				}
+			}
+			if src != "" {
+				r.add("C07.FRESHERR", fmt.Sprintf("%s: error append #%d reports an error made for this request", fnName(fn), k), call.Pos(), Violated,
+					"the appended error is loaded from "+src+", long-lived schema state: it was built for the document of an earlier request, so its line and column (and the path prefixed to it in place on every report) do not belong to the submitted document")
+			}
+		}
+	}
+	r.check("C07.FRESHERR", "request-time error appends take errors made for the request at hand", token.NoPos, true, fmt.Sprintf("%d appends of single errors in %d request-time functions examined", n, len(fns)))
+	r.floor("C07.FRESHERR", "appends of single errors in request-time functions", n, 10)
 }
